@@ -28,7 +28,7 @@ logging.disable(logging.CRITICAL)
 ENCODED = [queueing.worker, queueing.watcher, application.patch_and_check, processing.process_resource_causes, processing.process_resource_event,
            application.apply, aiotime.sleep]
 META = {
-    'bounds': 'H1: 3 events of one object; per event a version in {stale, echo of patch 1, echo of patch 2}; per processing a returned '
+    'bounds': 'H1: 2 events of one object (3 events per cell do not exhaust within 20 CPU-minutes and are not claimed); per event a version in {stale, echo of patch 1, echo of patch 2}; per processing a returned '
               'version in {None, p1, p2}; symbolic unbounded gaps, durations, consistency timeout T>=0, idle timeout>=1, 4 tie-breaks. '
               'H2: one event; delta symbolic >= 0; pressure at a symbolic instant or never; patch initially empty or carrying a '
               'remaining transformation; deletion with/without pending delete handler.',
@@ -310,7 +310,7 @@ def obligations():
         obs.append(Ob('h_worker', {'n': 2, 'pin': {'r0': r0, 'v1': v1}}, tiers=('quick',), timeout=900))
     obs.append(Ob('h_worker', {'n': 2}, tiers=('quick', 'thorough'), timeout=600, twins=['echo_arrived', 'awaiting', 'expired'], main=False))
     obs += split(Ob('h_worker', {'n': 2}, timeout=1500, tiers=('thorough',)), r0=[0, 1, 2], v1=[0, 1, 2])
-    obs += split(Ob('h_worker', {'n': 3}, timeout=3400, tiers=('thorough',)), r0=[0, 1, 2], r1=[0, 1, 2], v1=[0, 1, 2], v2=[0, 1, 2])
+    # (three events per cell do not exhaust: > 1600 paths after 20 CPU-minutes for one fully pinned cell -- outside the claim)
     for (remaining, deleting, has_ct, handled, has_pressure) in ((False, False, True, True, True), (False, False, True, False, False),
                                                                   (True, False, True, True, True), (False, True, True, True, True),
                                                                   (False, False, False, True, False)):
